@@ -1061,6 +1061,19 @@ class BlockwiseRequest(BaseUnicastRequest, interfaces.Request):
         if app_request.opt.observe is not None:
             if blockresponse.opt.observe is not None:
                 lower_observation = blockrequest.observation
+
+                def cancel_lower():
+                    if not lower_observation.cancelled:
+                        lower_observation.cancel()
+
+                # From here on, the observation on the wire goes when the
+                # application's goes -- also when that was cancelled before
+                # the first response arrived, or is while the later blocks of
+                # the first response are being fetched.
+                obs = weak_observation()
+                if obs is not None:
+                    obs.on_cancel(cancel_lower)
+                del obs
             else:
                 obs = weak_observation()
                 if obs and not obs.cancelled:
@@ -1094,8 +1107,10 @@ class BlockwiseRequest(BaseUnicastRequest, interfaces.Request):
             # expected that observations shut themselves down when GC'd.
             obs = weak_observation()
             del weak_observation
-            if obs is None:
-                lower_observation.cancel()
+            if obs is None or obs.cancelled:
+                # (a task started for a cancelled observation would be
+                # cancelled before it runs)
+                cancel_lower()
                 return
             future_weak_observation = protocol.loop.create_future()  # packing this up because its destroy callback needs to reference the subtask
             subtask = asyncio.create_task(
